@@ -36,7 +36,7 @@ ASSUMPTIONS = [
     "a master still polling 200 status reads after the terminal reported the "
     "requested state is counted as 'does not return' (bounded safety)",
 ]
-EXAMPLES = {"quick": 60, "thorough": 1500}
+EXAMPLES = {"quick": 60, "thorough": 5000}
 MIN_NONTRIVIAL = {"quick": 500, "thorough": 5000}
 
 ORDER = [1, 2, 4, 8]
